@@ -136,7 +136,8 @@ def check_lookup(t, clsname, shape, inst, names, own):
         stored = vars(holder).get(name)
         if err is not None:
             if stored is None:
-                t.outcome("stored-none-miss")
+                # the defining aggregate is there and holds None for it: the value stored there is None, not a miss
+                t.fail(f"C16|{clsname}|getattr|unset-name-of-present-holder-not-readable", case, f"{name} is declared by the present {'/'.join(hpath)} and unset (None) there, but getattr raises AttributeError (shape {shape})")
                 continue
             t.fail(f"C16|{clsname}|getattr|defined-name-not-readable", case, f"{name} is stored at {'/'.join(hpath)} = {stored!r} but getattr raises AttributeError (shape {shape})")
             continue
